@@ -20,6 +20,8 @@ pub enum TextCase {
     One { fen: String, text: String },
     /// through the real binary: `position fen F moves <prefix> S` then `show`
     Uci { walk: Walk, strings: Vec<u32> },
+    /// raw input of the libFuzzer target
+    Fuzz { bytes: Vec<u8> },
 }
 
 pub struct C12;
@@ -293,7 +295,31 @@ impl Prop for C12 {
                 Ok(())
             }
             TextCase::Uci { walk, strings } => self.uci_case(walk, strings, ev),
+            TextCase::Fuzz { bytes } => {
+                ev.eval();
+                if bytes.len() < 6 {
+                    return Ok(());
+                }
+                fuzz_one(bytes)
+            }
         }
+    }
+
+    fn post_merge(&self, tier: Tier, seed: u64, _outdir: &str, _nshards: u32) -> (Vec<Fail>, serde_json::Value) {
+        if tier != Tier::Thorough {
+            return (Vec::new(), json!({}));
+        }
+        let c = crate::fuzz::campaign("movetext", "/verif/harness/fuzz/seeds/movetext", None, 1_000_000, seed, 8, 16);
+        let mut fails = Vec::new();
+        for a in &c.artifacts {
+            let case = serde_json::to_value(TextCase::Fuzz { bytes: a.clone() }).unwrap();
+            let r = if a.len() >= 6 { fuzz_one(a) } else { Ok(()) };
+            match r {
+                Err(f) => fails.push(f.with_case(case)),
+                Ok(()) => fails.push(Fail::new("fuzz-target-crashed", format!("libFuzzer saved {:?} as a crash, the oracle accepts it when replayed", a)).with_case(case)),
+            }
+        }
+        (fails, json!({"libfuzzer_movetext": {"executions": c.executions, "workers": c.workers, "crash_artifacts": c.artifacts.len(), "notes": c.notes}}))
     }
 
     fn enumerate(&self, ctx: &Ctx, ev: &mut Ev, report: &mut dyn FnMut(TextCase, Fail)) {
@@ -306,6 +332,62 @@ impl Prop for C12 {
                 report(case, f);
                 return;
             }
+        }
+    }
+}
+
+/// Entry point of the libFuzzer target: byte 0 selects a curated root, bytes 1-2 up to two picked plies,
+/// the rest is mapped into the move-shape alphabet.
+pub fn fuzz_one(data: &[u8]) -> Result<(), Fail> {
+    let root = data[0] as usize % CURATED.len();
+    let mut p = Pos::from_fen(CURATED[root]).map_err(|e| Fail::new("harness", e))?;
+    let mut g = Game::new(CURATED[root]).map_err(|e| Fail::new("sane-position-not-importable", e.to_string()))?;
+    for &b in &data[1..3] {
+        if b == 0 {
+            continue;
+        }
+        let legal = p.legal();
+        if legal.is_empty() {
+            break;
+        }
+        let m = legal[b as usize % legal.len()];
+        let Some(em) = eng::find_legal(&mut g, &m.uci()) else {
+            return Err(Fail::new("legal-move-not-offered", format!("{} in {}", m.uci(), g.fen())));
+        };
+        g.push_history(em);
+        p = p.make(m);
+    }
+    let t = &data[3..];
+    if t.len() < 4 {
+        return Ok(());
+    }
+    let mut s = String::new();
+    s.push((b'a' + t[0] % 8) as char);
+    s.push((b'1' + t[1] % 8) as char);
+    s.push((b'a' + t[2] % 8) as char);
+    s.push((b'1' + t[3] % 8) as char);
+    if t.len() > 4 {
+        s.push_str(["", "q", "r", "b", "n"][t[4] as usize % 5]);
+    }
+    let legal_texts: Vec<String> = p.legal().iter().map(|m| m.uci()).collect();
+    let list = eng::moves(&mut g, true);
+    match eng::guarded(|| Move::from_uci_notation(&s, &g)) {
+        Err(pn) => Err(Fail::new("panic", format!("reading {} in {} : {}", s, p.fen4(), pn))),
+        Ok(None) => {
+            if legal_texts.contains(&s) {
+                return Err(Fail::new("legal-text-refused", format!("position {} : {:?}", p.fen4(), s)));
+            }
+            Ok(())
+        }
+        Ok(Some(m)) => {
+            let accepted = list.iter().any(|&x| x == m);
+            if accepted && (!legal_texts.contains(&s) || m.uci_notation() != s) {
+                return Err(Fail::new("illegal-string-accepted-and-played-as-another-move", format!("position {} : {:?} is accepted and played as {}", p.fen4(), s, m.uci_notation())));
+            }
+            if !accepted && legal_texts.contains(&s) {
+                return Err(Fail::new("legal-text-refused", format!("position {} : {:?}", p.fen4(), s)));
+            }
+            Ok(())
         }
     }
 }
